@@ -49,3 +49,41 @@ Proof. vm_compute. split; reflexivity. Qed.
 Print Assumptions C03_frees.
 Print Assumptions C03_held_disjoint_from_static.
 Print Assumptions C03_no_early_free.
+
+(* ---- whole histories (ArenaLedger.v) ---- *)
+From BV Require Import ArenaLedger.
+From Coq Require Import Permutation.
+
+(* conservation: everything the arena ever held is either given back exactly once, with the layout
+   it was obtained with, or is still held (equality of multisets of (address, size, align)) *)
+Theorem C03_ledger : forall k h b, sound_run k b h ->
+  Permutation (held k b ++ obtained_of k b h) (frees_of k b h ++ held k (run k b h)).
+Proof. exact ledger. Qed.
+
+(* once the arena is dropped it holds nothing and everything it ever obtained has been freed once *)
+Theorem C03_all_returned_after_drop : forall k h A, sound_run k fresh (h ++ [(ODrop, A)]) ->
+  Permutation (obtained_of k fresh (h ++ [(ODrop, A)])) (frees_of k fresh (h ++ [(ODrop, A)])) /\
+  held k (run k fresh (h ++ [(ODrop, A)])) = [].
+Proof. exact ledger_after_drop. Qed.
+
+(* nothing is freed that was not obtained (in particular not the static empty chunk) *)
+Theorem C03_only_obtained_blocks_are_freed : forall k h x, sound_run k fresh h ->
+  In x (frees_of k fresh h) -> In x (obtained_of k fresh h).
+Proof.
+  intros k h x H I. apply (Permutation_in x (Permutation_sym (ledger_fresh k h H))).
+  apply in_or_app. left. exact I.
+Qed.
+
+Example C03_ledger_witness :
+  let k := mkCfg 48 16 64 448 4096 1 1000 in
+  let h := [(OWithCapacity 1, follow k [mkGreq 496 16 (Some 4096)]);
+            (OAlloc (mkLayout 600 1), follow k [mkGreq 1008 16 (Some 8192)]);
+            (OReset, follow k []); (OAlloc (mkLayout 2000 1), follow k [mkGreq 2032 16 (Some 16384)]);
+            (ODrop, follow k [])] in
+  obtained_of k fresh h = [(4096, 496, 16); (8192, 1008, 16); (16384, 2032, 16)] /\
+  frees_of k fresh h = [(4096, 496, 16); (16384, 2032, 16); (8192, 1008, 16)].
+Proof. vm_compute. split; reflexivity. Qed.
+
+Print Assumptions C03_ledger.
+Print Assumptions C03_all_returned_after_drop.
+Print Assumptions C03_only_obtained_blocks_are_freed.
